@@ -55,9 +55,17 @@ def function_spans(text):
             continue
         depth = 0
         started = False
+        in_contract = False
         j = i
         while j < len(lines):
             code = lines[j].split("//")[0]
+            # multi-line contracts (`requires` / `ensures` blocks on their own lines) may contain braces
+            # (`if c { 1int } else { 0int }`); there the body opens with a `{` at the start of a line
+            if not started and j > i and re.match(r"\s*(requires|ensures|decreases|recommends)\b", code):
+                in_contract = True
+            if not started and in_contract and not code.lstrip().startswith("{"):
+                j += 1
+                continue
             for ch in code:
                 if ch == "{":
                     depth += 1
